@@ -236,6 +236,81 @@ func rotated(r []pt, k int) []pt {
 type gtPoly struct {
 	outer []pt
 	holes [][]pt
+	c     *pt // kernel point of the outer ring, when known (generated scenes)
+}
+
+// ---- geometric containment, as in coq/theories/Geo/Jordan.v (kernel, clear_h, clear_v, reach)
+
+func side(a, b, p pt) int64 { return (b.x-a.x)*(p.y-a.y) - (b.y-a.y)*(p.x-a.x) }
+
+func ccwRing(r []pt) []pt {
+	if area2(r) < 0 {
+		return reversed(r)
+	}
+	return r
+}
+
+// isKernel: c is strictly left of every edge of the counter-clockwise ring and exactly one edge
+// crosses c's height upwards (half-open: a.y <= c.y < b.y).
+func isKernel(r []pt, c pt) bool {
+	up := 0
+	for i := range r {
+		a, b := r[i], r[(i+1)%len(r)]
+		if side(a, b, c) <= 0 {
+			return false
+		}
+		if a.y <= c.y && c.y < b.y {
+			up++
+		}
+	}
+	return up == 1
+}
+
+func clearEdge(a, b, p, q pt) bool {
+	s1, s2 := side(a, b, p), side(a, b, q)
+	return (s1 > 0 && s2 > 0) || (s1 < 0 && s2 < 0)
+}
+
+// legClear: the axis-parallel leg p-q meets no edge of the ring (conservative exact test)
+func legClear(r []pt, p, q pt) bool {
+	for i := range r {
+		a, b := r[i], r[(i+1)%len(r)]
+		switch {
+		case p.y == q.y:
+			if !((a.y > p.y && b.y > p.y) || (a.y < p.y && b.y < p.y) || clearEdge(a, b, p, q)) {
+				return false
+			}
+		case p.x == q.x:
+			if !((a.x > p.x && b.x > p.x) || (a.x < p.x && b.x < p.x) || clearEdge(a, b, p, q)) {
+				return false
+			}
+		default:
+			return false
+		}
+	}
+	return true
+}
+
+// reachable: p is joined to c by two axis-parallel legs that meet no edge of the ring
+func reachable(r []pt, c, p pt) bool {
+	w1, w2 := pt{p.x, c.y}, pt{c.x, p.y}
+	return (legClear(r, c, w1) && legClear(r, w1, p)) || (legClear(r, c, w2) && legClear(r, w2, p))
+}
+
+// insideStar: c is a kernel point of the outer ring and every vertex of every hole is reachable
+func insideStar(outer []pt, holes [][]pt, c pt) bool {
+	r := ccwRing(outer)
+	if !isKernel(r, c) {
+		return false
+	}
+	for _, h := range holes {
+		for _, p := range h {
+			if !reachable(r, c, p) {
+				return false
+			}
+		}
+	}
+	return true
 }
 
 // preset: sizes of a scene family (integer units; one unit is one coordinate step of the embedding)
@@ -283,7 +358,8 @@ func genScene(rng *rand.Rand, ps preset, nOuter, maxHoles, maxVerts int) []gtPol
 				ok = false
 				break
 			}
-			p := gtPoly{outer: outer}
+			cc := c
+			p := gtPoly{outer: outer, c: &cc}
 			nh := rng.Intn(maxHoles + 1)
 			if ps.hrmax == 0 {
 				nh = 0
@@ -295,6 +371,10 @@ func genScene(rng *rand.Rand, ps preset, nOuter, maxHoles, maxVerts int) []gtPol
 				hole := starRing(rng, sc, ps.hrmin, ps.hrmax, 3+rng.Intn(4))
 				if hole == nil || !strictlyInside(hole, outer) {
 					continue // fewer holes: never use an unverified hole
+				}
+				if !insideStar(outer, [][]pt{hole}, c) {
+					dropped++ // not reachable from the kernel point by two clear axis-parallel legs
+					continue
 				}
 				p.holes = append(p.holes, hole)
 			}
@@ -336,6 +416,7 @@ func genScene(rng *rand.Rand, ps preset, nOuter, maxHoles, maxVerts int) []gtPol
 				}
 			}
 			for i := range sc {
+				sc[i].c = &pt{sc[i].c.x + dx, sc[i].c.y + dy}
 				mv(sc[i].outer)
 				for j := range sc[i].holes {
 					mv(sc[i].holes[j])
@@ -414,6 +495,20 @@ func assertScene(sc []gtPoly) {
 		for j := 0; j < i; j++ {
 			if !bboxDisjoint(p.outer, sc[j].outer) {
 				panic("generator: outers not disjoint")
+			}
+		}
+		if len(p.holes) > 0 {
+			ok := p.c != nil && insideStar(p.outer, p.holes, *p.c)
+			if !ok && p.c == nil { // fixed corpus: look for a kernel point
+				x0, y0, x1, y1 := bbox(p.outer)
+				for x := x0; x <= x1 && !ok; x++ {
+					for y := y0; y <= y1 && !ok; y++ {
+						ok = insideStar(p.outer, p.holes, pt{x, y})
+					}
+				}
+			}
+			if !ok {
+				panic("generator: holes not geometrically inside a star-shaped outer (kernel / reach)")
 			}
 		}
 		for a, h := range p.holes {
@@ -619,6 +714,8 @@ func (in *input) build(src int, orients []int64) *osm.OSM {
 }
 
 // ---------------------------------------------------------------- encoding
+
+var dropped int // holes not reachable from the kernel by two clear legs
 
 var nonInteger bool
 
@@ -1201,7 +1298,7 @@ func main() {
 	a := wire.ParseArgs()
 	rng := wire.Rng(a.Seed)
 	w := wire.NewWriter("C16", a.Seed, a.Tier)
-	w.Rule = "coordinate embedding: scene integer coordinates (x,y) are fed as lon = x*s+lon0, lat = y*s+lat0 for s in {1, 1e-7} and offsets {0, far from the origin}; observations are mapped back through the exact table of fed floats (vertex identities), scenes are used only when the generator's exact margins guarantee that float signs equal integer signs; families: big / tiny (holes of a few steps) / micro (outers of a few steps) / null_island (a vertex at (1,0), (0,1) or (1,1) steps). scenes: 1-4 integer star-shaped outers in disjoint grid cells, 0-2 star-shaped holes each in disjoint sub-cells, strict containment / simplicity / disjointness asserted exactly; every ring cut into 1..6 pieces (all counts cycle), random reversals, shuffled members, ways, nodes and ids; each scene = 6 Convert runs (node map / annotated way nodes / both; no, truthful, partial truthful orientations; IncludeInvalidPolygons) + 2 annotate.Relations runs. malformed: a scene with 1-3 defects (missing way/member/node, node at (0,0), duplicate member, role change, dangling way, degenerate way, touching rings, node member), judged model=implementation only. join: random segment soups over a 12x12 pool plus valid cuts; contains / addmp: random rings. distinct = distinct token streams; trivial = empty soups."
+	w.Rule = "coordinate embedding: scene integer coordinates (x,y) are fed as lon = x*s+lon0, lat = y*s+lat0 for s in {1, 1e-7} and offsets {0, far from the origin}; observations are mapped back through the exact table of fed floats (vertex identities), scenes are used only when the generator's exact margins guarantee that float signs equal integer signs; families: big / tiny (holes of a few steps) / micro (outers of a few steps) / null_island (a vertex at (1,0), (0,1) or (1,1) steps). scenes: 1-4 integer star-shaped outers in disjoint grid cells, 0-2 star-shaped holes each in disjoint sub-cells, strict containment (even-odd rule, no touching, AND kernel point + axis-parallel reachability of every hole vertex as in Geo/Jordan.v) / simplicity / disjointness asserted exactly; every ring cut into 1..6 pieces (all counts cycle), random reversals, shuffled members, ways, nodes and ids; each scene = 6 Convert runs (node map / annotated way nodes / both; no, truthful, partial truthful orientations; IncludeInvalidPolygons) + 2 annotate.Relations runs. malformed: a scene with 1-3 defects (missing way/member/node, node at (0,0), duplicate member, role change, dangling way, degenerate way, touching rings, node member), judged model=implementation only. join: random segment soups over a 12x12 pool plus valid cuts; contains / addmp: random rings. distinct = distinct token streams; trivial = empty soups."
 	nscene, nmal, njoin, ncont, naddmp := 260, 120, 500, 500, 150
 	if a.Tier == "thorough" {
 		nscene, nmal, njoin, ncont, naddmp = 5000, 2500, 12000, 12000, 3000
@@ -1374,6 +1471,8 @@ func main() {
 	if a.Tier == "thorough" {
 		shard = 1400
 	}
+	w.Stats["holes_dropped_not_reachable_from_kernel"] = dropped
+	w.Notes = append(w.Notes, "every scene with holes satisfies the geometric containment of Geo/Jordan.v: the outer ring has a kernel point (strictly left of every edge, one upward crossing of its height) from which every hole vertex is reachable by two axis-parallel legs that meet no edge (asserted with exact integer arithmetic)")
 	if err := w.Flush(a.Out, "Verif.C16.Check", shard); err != nil {
 		fmt.Fprintln(os.Stderr, err)
 		os.Exit(1)
